@@ -1,5 +1,5 @@
 """C16 — rename_all case conversion agrees with serde_derive's algorithm (rename.rs, parser.rs)."""
-import itertools, re
+import contextlib, itertools, re, unicodedata
 from common import *
 
 RULES = ["lowercase", "UPPERCASE", "PascalCase", "camelCase", "snake_case", "SCREAMING_SNAKE_CASE",
@@ -142,6 +142,8 @@ def run(check):
         ident_part(check, impl_serde)
         if not check.has_failing():
             backend_part(check)
+        if not check.has_failing():
+            backend_unicode_part(check)
     n_div = sum(1 for (rule, s_), got in impl_ts.items() if rule in RULES
                 for pos in ("field", "variant") if "panic" not in impl_serde[(pos, rule, s_)] and got != impl_serde[(pos, rule, s_)])
     check.extra["divergences_from_serde_outside_conventional_names"] = n_div
@@ -268,3 +270,383 @@ def ident_part(check, impl_serde):
         check.violation("parser::parse differs from the model on identifiers under rename_all %s: %s" % (meta[i][0], l1.first_diff(mans[i], rans[i])),
                         case={"source": meta[i][1]}, impl=rans[i], model=mans[i], failing_input=False,
                         broken="correspondence L1 getIdent (theorems TsV.C16.C16_field / C16_variant via C01/C02 parse halves)")
+
+
+# ----------------------------------------------------------------------------- non-ASCII identifiers through the six back ends
+
+def _hex(s, i, n):
+    """the n hex digits at s[i:i+n] as a number, or None"""
+    h = s[i:i + n]
+    return int(h, 16) if len(h) == n and re.fullmatch(r"[0-9A-Fa-f]+", h) else None
+
+
+def literal_value(lang, body):
+    """the string a double-quoted literal with the given body (the text between the quotes, as generated) denotes in `lang` -
+    each language by its own escape rules - or None where the body is not a well-formed literal of that language (the compiler
+    rejects the file; for a Go struct tag reflect's tag lookup fails and encoding/json falls back to the Go field name).
+    TypeScript: ES2015 string literals (\\n \\xHH \\uHHHH \\u{H..} and the identity escape); Kotlin: \\t \\b \\n \\r \\' \\" \\\\ \\$ \\uHHHH, `$name` /
+    `${` start a template; Swift: \\0 \\\\ \\t \\n \\r \\" \\' \\u{1-8 hex}, `\\(` starts an interpolation; Scala: \\b \\t \\n \\f \\r \\" \\' \\\\ \\uHHHH;
+    Go: strconv.Unquote of an interpreted literal (\\a \\b \\f \\n \\r \\t \\v \\\\ \\" \\ooo \\xHH \\uHHHH \\UHHHHHHHH); Python: the str escapes,
+    an unknown escape keeps its backslash"""
+    simple = {"typescript": {"n": "\n", "r": "\r", "t": "\t", "b": "\b", "f": "\f", "v": "\v"},
+              "kotlin": {"t": "\t", "b": "\b", "n": "\n", "r": "\r", "'": "'", '"': '"', "\\": "\\", "$": "$"},
+              "swift": {"0": "\0", "\\": "\\", "t": "\t", "n": "\n", "r": "\r", '"': '"', "'": "'"},
+              "scala": {"b": "\b", "t": "\t", "n": "\n", "f": "\f", "r": "\r", '"': '"', "'": "'", "\\": "\\"},
+              "go": {"a": "\a", "b": "\b", "f": "\f", "n": "\n", "r": "\r", "t": "\t", "v": "\v", "\\": "\\", '"': '"'},
+              "python": {"\n": "", "\\": "\\", "'": "'", '"': '"', "a": "\a", "b": "\b", "f": "\f", "n": "\n", "r": "\r", "t": "\t",
+                         "v": "\v"}}[lang]
+    units, i = [], 0           # code points; TypeScript: UTF-16 code units, Go: bytes of escapes are kept as latin-1 marks below
+
+    def put(cp):
+        if lang == "typescript" and cp > 0xFFFF:
+            cp -= 0x10000
+            units.extend([0xD800 + (cp >> 10), 0xDC00 + (cp & 0x3FF)])
+        else:
+            units.append(cp)
+
+    while i < len(body):
+        ch = body[i]
+        if ch == '"' or ch == "\n" and lang != "python":
+            return None
+        if ch == "$" and lang == "kotlin" and i + 1 < len(body) and (body[i + 1] == "{" or ("a" + body[i + 1]).isidentifier()):
+            return None
+        if ch != "\\":
+            put(ord(ch))
+            i += 1
+            continue
+        if i + 1 >= len(body):
+            return None
+        c = body[i + 1]
+        if c in simple:
+            for x in simple[c]:
+                put(ord(x))
+            i += 2
+        elif c == "u" and lang in ("typescript", "swift") and body[i + 2:i + 3] == "{":
+            j = body.find("}", i + 3)
+            digits = body[i + 3:j] if j > 0 else ""
+            if not re.fullmatch(r"[0-9A-Fa-f]+", digits) or (lang == "swift" and len(digits) > 8) or int(digits, 16) > 0x10FFFF \
+                    or (lang == "swift" and 0xD800 <= int(digits, 16) < 0xE000):
+                return None
+            put(int(digits, 16))
+            i = j + 1
+        elif c == "u" and lang != "swift":
+            cp = _hex(body, i + 2, 4)
+            if cp is None or (lang == "go" and 0xD800 <= cp < 0xE000):
+                return None
+            put(cp)
+            i += 6
+        elif c == "U" and lang in ("go", "python"):
+            cp = _hex(body, i + 2, 8)
+            if cp is None or cp > 0x10FFFF or (lang == "go" and 0xD800 <= cp < 0xE000):
+                return None
+            put(cp)
+            i += 10
+        elif c == "x" and lang in ("typescript", "go", "python"):
+            cp = _hex(body, i + 2, 2)
+            if cp is None:
+                return None
+            put(cp)           # (a Go \xHH is a byte; the keys looked at here never need one above 7f)
+            i += 4
+        elif c in "01234567" and lang in ("go", "python"):
+            m = re.match(r"[0-7]{3}" if lang == "go" else r"[0-7]{1,3}", body[i + 1:])
+            if not m or int(m.group(0), 8) > 255 and lang == "go":
+                return None
+            put(int(m.group(0), 8))
+            i += 1 + len(m.group(0))
+        elif c == "0" and lang == "typescript" and not body[i + 2:i + 3].isdigit():
+            put(0)
+            i += 2
+        elif c == "N" and lang == "python":
+            m = re.match(r"\{([^}]+)\}", body[i + 2:])
+            try:
+                put(ord(unicodedata.lookup(m.group(1))))
+            except (AttributeError, KeyError):
+                return None
+            i += 2 + len(m.group(0))
+        elif lang == "python":
+            put(ord("\\"))
+            i += 1
+        elif lang == "typescript" and not c.isdigit():
+            put(ord(c))       # identity escape
+            i += 2
+        else:
+            return None
+    if lang == "typescript":
+        return b"".join(u.to_bytes(2, "little") for u in units).decode("utf-16-le", "surrogatepass")
+    return "".join(map(chr, units))
+
+
+NOT_A_LITERAL = re.compile(r"^<not a well-formed (\w+) string literal: (.*)>$", re.S)
+
+
+def read_literal(lang, body):
+    v = literal_value(lang, body)
+    if v is None:
+        # (ext_go cuts the tag's options off after decoding: cut them here, where the whole text is kept)
+        return "<not a well-formed %s string literal: %s>" % (lang, body.split(",")[0] if lang == "go" else body)
+    return v
+
+
+@contextlib.contextmanager
+def exact_literals(lang):
+    """C01's and C02's extractors read every string literal of the generated text with one lenient decoder for all six languages
+    (`\\x` -> `x`; json.loads), and C01's TypeScript extractor takes ASCII property names only: enough for the keys those checks
+    generate.  For the duration of the block they read a literal by the rules of the language it is written in (`literal_value`)
+    and accept any ECMAScript identifier as an unquoted property name."""
+    import c01, c02
+    saved = (c01.debug_unescape, c01.ts_key, c02.unq)
+
+    def ts_key(name):
+        if name.startswith('"'):
+            return read_literal("typescript", name[1:-1])
+        ok = all(ch in "$\u200c\u200d" or ("a" + ch).isidentifier() for ch in name)
+        return name if ok else "<not a property name: %s>" % name
+    c01.debug_unescape = lambda body: read_literal(lang, body)
+    c01.ts_key = ts_key
+    c02.unq = lambda quoted: read_literal(lang, quoted[1:-1])
+    try:
+        yield
+    finally:
+        c01.debug_unescape, c01.ts_key, c02.unq = saved
+
+
+# words by class; all in NFC (rustc normalises identifiers to NFC, so only NFC identifiers are the same identifier for serde_derive
+# and for typeshare).  The case facts the scope below needs are read from Rust std through the runner, not from this table.
+W_ASCII = ["total", "nr", "x", "id", "v2", "max", "line1", "2fa"]
+W_LOWER = ["café", "straße", "größe", "señal", "naïve", "ǆem", "ıssız", "ſtern", "αβγ", "имя", "𐐨𐐩", "õ", "ªb", "éé", "münze2"]
+W_CASELESS = ["名前", "שם", "中", "𠮷", "ক", "ǅem"]                  # no case at all; ǅ is a title-case letter
+W_UPPER = ["É", "Ärger", "𝒳", "Ñu", "xΣ"]                          # unconventional in a field name
+W_MARK = ["q\u0308", "x\u0301y", "\u0995\u09cd\u0995", "g\u0308b", "v2\u0303"]     # combining marks without a precomposed form
+V_ASCII = ["Total", "Nr", "X", "Id", "V2", "Max"]
+V_ASCII_INITIAL = ["Café", "Straße", "Größe", "Señal", "Naïve", "Xé", "Münze2"]
+V_UPPER = ["École", "Ägypten", "Ñandú", "Ǆungla", "Σίγμα", "Ярлык", "İstanbul", "ẞharp", "𐐀𐐨", "𝒳ray", "Ör", "Éé"]
+V_CASELESS = ["名前", "שם", "中", "𠮷", "ǅem"]
+for _w in W_ASCII + W_LOWER + W_CASELESS + W_UPPER + W_MARK + V_ASCII + V_ASCII_INITIAL + V_UPPER + V_CASELESS:
+    assert unicodedata.normalize("NFC", _w) == _w, _w
+MARK_FINDING = "combining-mark-debug-escaped"
+
+
+def backend_unicode_part(check):
+    """dimension: the *letters* of the identifiers the rules are applied to, carried through the generated text.  Field identifiers of
+    1-3 words joined by `_` and variant identifiers of 1-3 capitalised words, the words drawn from classes: ASCII, non-ASCII
+    lower-case (é ß ǆ ı ſ α я ª, outside the BMP 𐐨), upper-case (É Ǆ Σ Я İ ẞ 𐐀 𝒳), title-case ǅ, caseless (名 ש 中 𠮷 ক) and - for fields,
+    in declarations of their own - combining marks without a precomposed form (q̈ x́ ক্ ẓ̇: std's Debug formatting writes those as
+    `\\u{..}`); under all eight rules; on a struct, on a struct variant (its own rule), on the variants of a unit enum and of a
+    tagged enum (unit / tuple / struct variants); through all six generators, with a date field for the languages that bind the key of
+    one a second time.  Demanded: the key each generated declaration binds - C01's / C02's extractors, every string literal read by the
+    rules of the language it is written in - is serde_derive's name for that identifier (vendored case.rs through the runner).  In
+    scope: fields without an upper-case letter, UpperCamelCase variants that are not all-capitals in ASCII; an identifier outside
+    (an upper-case letter in a field) is judged under the rules where typeshare's function agrees with serde's; where serde_derive
+    itself fails (camelCase on a non-ASCII initial) there is no name to agree with.  The letter files also go through the model
+    (byte-exact)."""
+    import c01, c02, l2
+    from syn_gen import m_path, m_nv, m_list, lit_s, t_path, field
+    from gen import Gen
+    rng = check.rng
+    g = Gen(rng)
+    per_rule, mark_files = (120, 6) if check.thorough else (4, 1)
+    facts = {r[0]: r for r in unicode_table({ch for w in W_LOWER + W_CASELESS + W_UPPER + W_MARK + V_ASCII_INITIAL + V_UPPER + V_CASELESS
+                                             for ch in w if ord(ch) > 127})}
+    upper = lambda ch: ch.isupper() if ord(ch) < 128 else bool(facts[ch][1])
+
+    def field_scope(s):
+        return not any(upper(ch) for ch in s)
+
+    def variant_scope(s):
+        lower0 = s[0].islower() if ord(s[0]) < 128 else bool(facts[s[0]][2])
+        return "_" not in s and not lower0 and (bool(re.search(r"[a-z]", s)) or not any(upper(ch) for ch in s[1:]))
+
+    def field_ident(rule, special, used):
+        """1-3 words, at least one from `special`; under camelCase the first letter is ASCII (serde_derive slices one byte off)"""
+        for _ in range(200):
+            n = rng.choice([1, 2, 2, 3])
+            words = [rng.choice(special)] + [rng.choice(rng.choice([W_ASCII, W_LOWER, W_CASELESS])) for _ in range(n - 1)]
+            rng.shuffle(words)
+            if rule == "camelCase" and ord(words[0][0]) > 127:
+                words.insert(0, rng.choice(W_ASCII[:-1]))
+            if words[0][0].isdigit():
+                words.reverse()
+            if words[0][0].isdigit():
+                continue
+            s = ("__" if rng.random() < 0.06 else "_").join(words) + ("_" if rng.random() < 0.04 else "")
+            if s not in used and s.replace("_", "").upper() not in {u.replace("_", "").upper() for u in used}:
+                used.add(s)
+                return s
+        raise InfraError("no fresh field identifier")
+
+    def variant_ident(rule, used):
+        for _ in range(200):
+            n = rng.choice([1, 2, 2, 3])
+            words = [rng.choice(rng.choice([V_UPPER, V_ASCII_INITIAL, V_CASELESS]))] + \
+                    [rng.choice(rng.choice([V_ASCII, V_UPPER, V_ASCII_INITIAL, V_CASELESS])) for _ in range(n - 1)]
+            rng.shuffle(words)
+            if rule == "camelCase" and ord(words[0][0]) > 127:
+                words.insert(0, rng.choice(V_ASCII + V_ASCII_INITIAL))
+            s = "".join(words)
+            if variant_scope(s) and s.upper() not in {u.upper() for u in used}:
+                used.add(s)
+                return s
+        raise InfraError("no fresh variant identifier")
+
+    ts = [m_path("typeshare")]
+    cases = []
+    for rule in RULES:
+        ra = [m_list("serde", [m_nv("rename_all", lit_s(rule))])]
+        for k in range(per_rule + mark_files):
+            marks = k >= per_rule                 # the last file(s) of every rule: fields with combining marks
+            used = set()
+            special = W_MARK if marks else W_LOWER + W_CASELESS
+            sfields = [field_ident(rule, special, used) for _ in range(2 if marks else rng.choice([3, 4]))] + \
+                      ([] if marks else [field_ident(rule, W_UPPER, used)]) + [rng.choice(["age", "n"])]
+            vfields = [field_ident(rule, special, used) for _ in range(rng.choice([1, 2]))] + \
+                      ([] if marks or rng.random() < 0.5 else [field_ident(rule, W_UPPER, used)])
+            date = field_ident(rule, special, used)
+            used = set()
+            unit_vs = [variant_ident(rule, used) for _ in range(rng.choice([2, 3]))]
+            used = set()
+            tagged_vs = [variant_ident(rule, used) for _ in range(3)]
+            fl = lambda ws: [field([], w, t_path("u8")) for w in ws]
+
+            def mk(dated):
+                pf = fl(sfields[:-1]) + ([field([], date, t_path("OffsetDateTime"))] if dated else []) + fl(sfields[-1:])
+                return {"attrs": [], "items": [
+                    {"kind": "struct", "attrs": ts + ra, "ident": "Person", "generics": [], "fields": ("named", pf)},
+                    {"kind": "enum", "attrs": ts + ra, "ident": "Col", "generics": [],
+                     "variants": [{"attrs": [], "ident": v, "fields": ("unit",)} for v in unit_vs]},
+                    {"kind": "enum", "attrs": ts + ra + [m_list("serde", [m_nv("tag", lit_s("t")), m_nv("content", lit_s("c"))])], "ident": "Ev",
+                     "generics": [],
+                     "variants": [{"attrs": list(ra), "ident": tagged_vs[0], "fields": ("named", fl(vfields))},
+                                  {"attrs": [], "ident": tagged_vs[1], "fields": ("unit",)},
+                                  {"attrs": [], "ident": tagged_vs[2], "fields": ("unnamed", [field([], None, t_path("u8"))])}]}]}
+            for lang in LANGS:
+                dated = lang in ("typescript", "go", "python")
+                cfg = {"package": "proto" if lang == "go" else "com.example", "type_mappings": {}, "version_header": False,
+                       "prefix": rng.choice(["", "", "OP"]) if lang in ("kotlin", "swift") else "", "module_name": ""}
+                f = mk(dated)
+                m, r, texts = l2.requests(lang, cfg, [{"crate": "", "file_name": "out", "path": "src/lib.rs", "file": f}], g)
+                cases.append(dict(rule=rule, lang=lang, cfg=cfg, file=f, m=m, r=r, src=texts[0], marks=marks, k=k,
+                                  fields=[("struct", ("Person",), sfields[:-1] + ([date] if dated else []) + sfields[-1:]),
+                                          ("variant", ("Ev", tagged_vs[0], 0), vfields)],
+                                  enums=[("Col", True, unit_vs, "u" * len(unit_vs)), ("Ev", False, tagged_vs, "sut")]))
+    # serde_derive's names and typeshare's function, for every (position, rule, identifier) used
+    wanted = sorted({(pos, c["rule"], w) for c in cases
+                     for pos, ws in [("field", [w for _, _, ws in c["fields"] for w in ws]), ("variant", [v for _, _, vs, _ in c["enums"] for v in vs])]
+                     for w in ws})
+    ans = runner([x for pos, rule, w in wanted for x in ({"op": "serde", "pos": pos, "rule": rule, "s": w}, {"op": "rename", "rule": rule, "s": w})])
+    serde, judged = {}, {}
+    for i, (pos, rule, w) in enumerate(wanted):
+        want, got = ans[2 * i], ans[2 * i + 1]
+        scope = field_scope(w) if pos == "field" else variant_scope(w)
+        serde[(pos, rule, w)] = want.get("ok")
+        judged[(pos, rule, w)] = "ok" in want and (scope or got == want)
+        check.count("unicode-ident:%s-%s" % (pos, "serde_derive-fails" if "ok" not in want else "in-scope" if scope else
+                                             "unconventional-agreeing" if got == want else "unconventional-differing"))
+        if scope and "ok" in want and got != want:
+            check.violation("rename_all %s on %s %r gives %s, serde_derive gives %s" % (rule, pos, w, got, want),
+                            case={"position": pos, "rule": rule, "ident": w}, impl=got, model=want, failing_input=True)
+            return
+    mcases = [c for c in cases if not c["marks"]]
+    names = set()
+    for c in mcases:
+        if c["lang"] == "python":
+            names |= l2.names_of(c["file"])
+    mans = dict(zip(map(id, mcases), (l2.norm(a) for a in model([c["m"] for c in mcases], names=names))))
+    rans = [l2.norm(a) for a in runner([c["r"] for c in cases])]
+    first_diff, mark_witness, keys = None, None, 0
+    for c, ra in zip(cases, rans):
+        rule, lang, cfg = c["rule"], c["lang"], c["cfg"]
+        check.saw(("backend-unicode", rule, lang, c["k"], c["src"]), nontrivial=True)
+        check.count("backend-unicode-%s" % ("marks" if c["marks"] else "letters"))
+        problems = []               # (text, key read from the output or None, serde's name or None)
+        if not isinstance(ra.get("ok"), dict):
+            problems.append(("the %s generator does not generate at all: %s" % (lang, str(ra)[:300]), None, None))
+        else:
+            text = "\n".join(ra["ok"][k] for k in sorted(ra["ok"]))
+            with exact_literals(lang):
+                try:
+                    got = c01.EXTRACT[lang](text)
+                    rev, _ = c01.ts_reviver_problems(text) if lang == "typescript" else ([], 0)
+                except Exception as ex:
+                    got, rev = {}, ["the extractor fails on the text: %r" % ex]
+                exps = []
+                for name, unit, vs, kinds in c["enums"]:
+                    exps.append(dict(name=name, unit=unit, tag=None if unit else "t", content=None if unit else "c",
+                                     variants=[dict(ident=v, kind=kd, wire=serde[("variant", rule, v)], opt=False) for v, kd in zip(vs, kinds)]))
+                    keys += len(vs)
+                bad = c02.oracle(lang, cfg, text, exps)
+            problems += [(p, None, None) for p in rev]
+            for kind, names_, idents in c["fields"]:
+                d = c01.decl_name(lang, cfg, kind, names_)
+                if d not in got or len(got[d]) != len(idents):
+                    problems.append(("%s: %s" % (d, "no such declaration" if d not in got else "binds %d fields %r, the source has %d: %r"
+                                                 % (len(got[d]), got[d], len(idents), idents)), None, None))
+                    continue
+                for i, (w, key) in enumerate(zip(idents, got[d])):
+                    want = serde[("field", rule, w)]
+                    if not judged[("field", rule, w)] or (lang == "scala" and "-" in want):
+                        continue                # Scala carries no key binding: a key with a dash is outside (as in C01)
+                    if lang in ("swift", "python"):
+                        key = read_literal(lang, key)       # those two extractors hand the body of the literal on as written
+                    keys += 1
+                    if key != want:
+                        lit = NOT_A_LITERAL.match(key)
+                        problems.append(("%s %s field %d (`%s`) %s; serde_derive's name is %r"
+                                         % (lang, d, i, w, "is bound to JSON key %r" % key if not lit else "carries the key literal \"%s\", which is "
+                                            "not a well-formed %s string literal (no key is bound by it)" % (lit.group(2), lang), want), key, want))
+            for name in sorted(bad):
+                problems += [("enum %s: %s" % (name, msg), None, None) for _, msg in bad[name]]
+        if c["marks"] and problems and mark_class(lang, problems):
+            check.count("inside-class:" + MARK_FINDING)
+            mark_witness = mark_witness or {"lang": lang, "rule": rule, "source": c["src"], "problems": [p[0] for p in problems[:3]]}
+            continue
+        if problems:
+            check.violation("rename_all %s with non-ASCII letters in the identifiers: the %s back end does not write the names serde_derive "
+                            "computes: %s" % (rule, lang, problems[0][0]),
+                            case={"lang": lang, "rule": rule, "config": cfg, "source": c["src"], "problems": [p[0] for p in problems[:6]],
+                                  "serde_derive_names": {"%s %s" % (pos, w): serde[(pos, rule, w)] for pos, ws in
+                                                         [("field", [w for _, _, ws in c["fields"] for w in ws]),
+                                                          ("variant", [v for _, _, vs, _ in c["enums"] for v in vs])] for w in ws},
+                                  "request": c["r"]},
+                            impl=ra, model=mans.get(id(c)), failing_input=True)
+            return
+        if not c["marks"] and mans[id(c)] != ra and first_diff is None:
+            first_diff = (c, mans[id(c)], ra)
+    check.count("backend-unicode keys judged", keys)
+    check.rule += ("; back ends on non-ASCII identifiers: %d files per rule of fields / variants built from word classes {ASCII, non-ASCII lower, "
+                   "upper, title-case, caseless, outside the BMP, combining marks} x 8 rules x 6 languages, key bound by each declaration "
+                   "(string literals read by the rules of the target language) vs serde_derive's name" % (per_rule + mark_files))
+    check.assumptions.append("which string a generated literal denotes in its language is tools/c16.py `literal_value` (escape rules of ES2015, "
+                             "Kotlin, Swift, Scala, Go strconv.Unquote / struct tags, Python str), written from the language references; the "
+                             "target compilers are not run")
+    if mark_witness and not check.known(MARK_FINDING, mark_witness):
+        # not (yet) an `open:` line of KNOWN_FINDINGS.txt: kept visible in the evidence
+        check.notes.append("candidate finding %s (Kotlin / Scala / Go write a combining mark of a name as Rust's `\\u{..}`, which is no "
+                           "escape of those languages): %s" % (MARK_FINDING, json.dumps(mark_witness, ensure_ascii=False)[:1500]))
+    if first_diff:
+        c, ma, ra = first_diff
+        d = None
+        if "ok" in ma and "ok" in ra:
+            for k in ra["ok"]:
+                d = d or l2.text_diff(ma["ok"].get(k, ""), ra["ok"][k])
+        check.violation("the %s generator differs from the model on identifiers with non-ASCII letters under rename_all %s (the oracle finds the "
+                        "implementation's names correct): %s" % (c["lang"], c["rule"], d or (str(ma)[:200] + " vs " + str(ra)[:200])),
+                        case={"lang": c["lang"], "rule": c["rule"], "config": c["cfg"], "source": c["src"], "request": c["r"]}, impl=ra, model=ma,
+                        failing_input=False, broken="correspondence L2 parse+generate_types on non-ASCII identifiers (theorems TsV.C16.C16_field / "
+                                                    "C16_variant carried to the text by C01_backend_* / C02_backend)")
+
+
+def mark_class(lang, problems):
+    """are all the problems of this case the one class: a back end whose language has no `\\u{..}` escape (Kotlin, Scala, Go) wrote a
+    combining mark of the name the way Rust's Debug formatting does - and the literal would be serde's name if `\\u{..}` were read
+    the Rust way?"""
+    if lang not in ("kotlin", "scala", "go"):
+        return False
+    for _, key, want in problems:
+        lit = NOT_A_LITERAL.match(key or "")
+        if not lit:
+            return False
+        escaped = re.findall(r"\\u\{([0-9a-f]+)\}", lit.group(2))
+        rust = re.sub(r"\\u\{([0-9a-f]+)\}", lambda x: chr(int(x.group(1), 16)), lit.group(2))
+        if not escaped or rust != want or not all(unicodedata.category(chr(int(h, 16))).startswith("M") for h in escaped):
+            return False
+    return True
